@@ -91,7 +91,24 @@ Inductive case :=
 | CStateM (scen : N) (height round : Z) (ptotal : Z) (phave : list bool) (nvals : Z)
           (m : cmsg) (genuine : bool) (sent_i : bool) (inlen : Z)
           (recv_panic_i stopped_i bg_panic_i stuck_i halted_i probe_ok_i : bool)
-          (pcount_before_i pcount_after_i : Z) (alloc_i : Z).
+          (pcount_before_i pcount_after_i : Z) (alloc_i : Z)
+(* A panic inside the routines of a REAL started MConnection, in a child process that serves
+   several connections (verif_c17_mux_test.go, TestVerifC17Recover).
+   kind 1: the victim connection's onReceive (a reactor's Receive) panics on the marked message;
+   kind 2: the victim connection's transport panics in Write, i.e. inside sendRoutine.
+   descs: the victim's channels; accepted: what Send accepted on the victim pair, in order;
+   marked: position in [accepted] of the marked message (kind 2: -1).
+   crashed_i: the child process died while running this case;
+   reached_i: onReceive got the marked message / Write was called and panicked;
+   nerr_i: calls of the victim's onError; err_has_panic_i: its argument carries the panic value;
+   running_i: victim.IsRunning() afterwards; send_after_i: victim.Send afterwards returned true;
+   delivered_i: the victim pair's onReceive journal (the marked message is not in it: onReceive
+   panicked); ndeliv_at_err_i: its length when onError fired;
+   others_ok_i: for every other connection of the process: everything it was sent before AND
+   after the panic was delivered in order, it is still running and reported no error *)
+| CRecover (kind : N) (maxsz : nat) (descs : list (Z * nat * Z)) (accepted : list (Z * blob)) (marked : Z)
+           (crashed_i reached_i : bool) (nerr_i : Z) (err_has_panic_i running_i send_after_i : bool)
+           (delivered_i : list (Z * blob)) (ndeliv_at_err_i : Z) (others_ok_i : list bool).
 
 (* ------------------------------------------------------------------ helpers *)
 
@@ -299,4 +316,23 @@ Definition check (c : case) : verdict :=
       mism (negb sent_i || validate_basic m || stopped_i) 24;
       (* the live part set gains exactly the part the model says AddPart accepts *)
       mism (negb is_part || (pca_i =? pcb_i + (if added then 1 else 0))) 25 ]
+  | CRecover kind maxsz descs accepted marked crashed_i reached_i nerr_i err_has_panic_i running_i
+             send_after_i delivered_i nd_i others_ok_i =>
+    let ids := map (fun d => fst (fst d)) descs in
+    let acc := unhex_j accepted in
+    let del := unhex_j delivered_i in
+    let mch := match nth_error acc (Z.to_nat marked) with Some e => fst e | None => -1 end in
+    first_of [
+      viol (negb crashed_i) 23;
+      viol (crashed_i || fifo_prefix ids acc del) 1;
+      (* the panic costs exactly that connection: reported once, with the panic, and stopped *)
+      viol (crashed_i || negb reached_i ||
+            ((nerr_i =? 1) && err_has_panic_i && negb running_i && negb send_after_i)) 26;
+      viol (crashed_i || forallb (fun b => b) others_ok_i) 27;
+      viol (crashed_i || (nerr_i =? 0) || (nd_i =? Z.of_nat (List.length delivered_i))) 7;
+      (* an accepted marked message reaches onReceive / the armed transport is written to *)
+      mism (crashed_i || reached_i) 29;
+      (* on the marked message's channel exactly the messages accepted before it were delivered *)
+      mism (crashed_i || negb reached_i || (marked <? 0) ||
+            list_eqb bytes_eqb (on_chan mch del) (on_chan mch (firstn (Z.to_nat marked) acc))) 28 ]
   end.
